@@ -119,9 +119,13 @@ partial def runConsOps (n : Nat) (w : Int) (maxHealthy : Int) (st : ConsState) (
 
 /-- suite `consumers`: header n= dur= pn= pdur= psize= slo= + circuit settings -/
 def suiteConsumers (kvs : List (String × String)) (lines : List (String × String)) : List String :=
-  let n := kvNat kvs "n" 10
-  let dur := kvInt kvs "dur" 10000000000
-  let all : All := { run := RunStats.new n dur (kvNat kvs "pn" 6) (kvInt kvs "pdur" 60000000000) (kvNat kvs "psize" 100),
+  -- a window left unset (0) is the documented default: 10 buckets over 10 s; 6 buckets of 100 samples over 60 s
+  let n := if kvNat kvs "n" 10 == 0 then 10 else kvNat kvs "n" 10
+  let dur := if kvInt kvs "dur" 10000000000 == 0 then 10000000000 else kvInt kvs "dur" 10000000000
+  let pn := if kvNat kvs "pn" 6 == 0 then 6 else kvNat kvs "pn" 6
+  let pdur := if kvInt kvs "pdur" 60000000000 == 0 then 60000000000 else kvInt kvs "pdur" 60000000000
+  let psize := if kvNat kvs "psize" 100 == 0 then 100 else kvNat kvs "psize" 100
+  let all : All := { run := RunStats.new n dur pn pdur psize,
                      fb := FbStats.new n dur, slo := { maxHealthy := kvInt kvs "slo" 250000000 } }
   let c : Circ OState CState := { cfg := parseCfg kvs {}, opener := .never, closer := .never }
   (runConsOps n (tdiv dur n) (kvInt kvs "slo" 250000000) { c := c, all := all, noFb := kvGet kvs "coll" == some "run" } {} false lines #[]).toList
